@@ -12,7 +12,7 @@
    [p_lv n LExpr pc None ts] = the model of parser.expr() (pc=false) / parser.printExpr() (pc=true)
    with fuel n. *)
 From Verif Require Import Lib.Base Model.ExprAst Model.ExprParser Proofs.ExprParserMono Proofs.ExprParserRel
-  Proofs.PrecSpec Proofs.ExprParserPrinted Proofs.ExprParserMin Proofs.ExprParserPrint.
+  Proofs.PrecSpec Proofs.ExprParserPrinted Proofs.ExprParserMin Proofs.ExprParserPrint Proofs.ExprParserGetline.
 
 (* more fuel never changes an answer other than "out of fuel" *)
 Theorem C04_fuel_monotone : forall n m l pc pend ts r,
@@ -78,13 +78,23 @@ Theorem C04_table_refuted : ~ C04_table_full_statement.            (* $$x++ is r
 Proof. exact table_full_refuted. Qed.
 Print Assumptions C04_table_refuted.
 
-(* `expr | getline` binds looser than concatenation: stated; the model implements it (see the
-   examples) and is tied to the implementation by the correspondence check, not proved in general *)
-Definition C04_getline_statement : Prop :=
-  forall l r rest, wf l -> wf r -> wf (EBinary BConcat l r) -> tok_cont false (hd_tok rest) = 0%nat ->
+(* `expr | getline` binds looser than concatenation (and than everything down to ||): the whole
+   expression to the left of the bar is the command *)
+Theorem C04_getline_binds_looser : forall e rest,
+  wf e -> (3 <= tlevel e)%nat -> tok_cont false (hd_tok rest) = 0%nat ->
+  exists n0, forall n, (n0 <= n)%nat ->
+    p_lv n LExpr false None (pp_min false e ++ TPipe :: TGetline :: rest)
+    = POk (EGetline (Some (par false false 0 e)) None None, rest).
+Proof. exact getline_binds_looser. Qed.
+Print Assumptions C04_getline_binds_looser.
+
+Corollary C04_getline_after_concat : forall l r rest,
+  wf (EBinary BConcat l r) -> tok_cont false (hd_tok rest) = 0%nat ->
   exists n0, forall n, (n0 <= n)%nat ->
     p_lv n LExpr false None (pp_min false (EBinary BConcat l r) ++ TPipe :: TGetline :: rest)
     = POk (EGetline (Some (par false false 0 (EBinary BConcat l r))) None None, rest).
+Proof. intros l r rest H. apply getline_binds_looser; [exact H | cbn; lia]. Qed.
+Print Assumptions C04_getline_after_concat.
 
 (* ---- non-vacuity ---- *)
 
